@@ -33,6 +33,7 @@ pub fn main(args: &[String]) {
         }
         tw.push(&json!({"ev": "reset", "CACHE": consts["fs_cache"], "BLOCK": consts["block"], "L": l, "job": job}));
         mla::verif::start_recording();
+        let gave_up = std::cell::Cell::new(false);
         let got = guarded(|| {
             let mut r = stacks::failsafe_over(ShortSource { inner: &bytes[..], sched: sched.clone(), i: 0 }, stack, false).expect("fs reader");
             let mut out = vec![];
@@ -46,7 +47,8 @@ pub fn main(args: &[String]) {
                     Ok(k) => out.extend_from_slice(&buf[..k]),
                     Err(_) => stops += 1,
                 }
-                if i > 200_000 { break; }
+                // harness budget (not a verdict): reported as `gave_up`
+                if i > 400_000 + 2 * l { gave_up.set(true); break; }
             }
             out
         });
@@ -63,7 +65,7 @@ pub fn main(args: &[String]) {
             Ok(out) => {
                 let ok_prefix = out.len() <= l && out[..] == plain[..out.len()];
                 if cut.is_none() && out.len() == l { complete += 1; }
-                tw.push(&json!({"ev": "summary", "delivered": out.len(), "L": l, "prefix": ok_prefix, "cut": cut.is_some()}));
+                tw.push(&json!({"ev": "summary", "delivered": out.len(), "L": l, "prefix": ok_prefix, "cut": cut.is_some(), "gave_up": gave_up.get()}));
             }
             Err(p) => tw.push(&json!({"ev": "summary", "delivered": -1, "L": l, "prefix": false, "cut": cut.is_some(), "panic": p})),
         }
